@@ -2,6 +2,15 @@
 from __future__ import annotations
 
 
+def optional_pairs(columns, label, target_only, is_3mr):
+    """Pairs the statement neither demands nor clearly forbids: in pairwise mode every column is paired
+    with itself, which for a 3MR relation feature conflicts with 'paired with the label only' - both
+    readings are accepted."""
+    if is_3mr and not target_only:
+        return {frozenset((c, c)) for c in columns if ' AND_REL ' in c}
+    return set()
+
+
 def requested_pairs(columns, label, target_only, is_3mr):
     cols = list(columns)
     out = set()
